@@ -724,6 +724,16 @@ def search(ctx, rng, budget):
         def akey(A, d):
             return 'C10:angular:%s:%s' % (A[0], d.split('[')[0])
         run('angular', (op, a, b, xs), akey, ('ang', op, len(a) > len(b), len(a) == len(b)))
+        # the same algebra as values: operands unchanged, no aliasing, repeatable, reusable (one pair of objects, a whole
+        # sequence of expressions, finally SPolynomial(radial * B)); equal and unequal lengths in both orders
+        la = int(rng.integers(1, 6))
+        lb = [la, int(rng.integers(1, 6)), la + int(rng.integers(1, 4)), max(1, la - int(rng.integers(1, 4)))][it % 4]
+        pa = rng.normal(size=la); pb = rng.normal(size=lb)
+        names = ['A+B', 'B+A', 'A-B', 'B-A', 'A*B', 'B*A', 'A+A', 'A-A', 'A*A', 'k*A', 'B*k', 'A/k', '(A+B)*B', '(A-B)+(B*A)']
+        order = [names[int(i)] for i in rng.permutation(len(names))[:int(rng.integers(4, 10))]]
+        run('angular_purity', (pa, pb, rng.normal(size=int(rng.integers(1, 4))), float(rng.choice([-2.0, 0.5, 3.0])), xs, order),
+            lambda A, d: 'C10:angular_purity:%s' % re.sub(r'[-0-9.e+\[\], ]{4,}|\(evaluation \d\)', '', d)[:60],
+            ('angp', la == lb, la > lb))
         if it % 5 == 0:
             run('bspline', gen_bspline_args(rng, it // 5), lambda A, d: 'C10:bspline:%s:%s' % (A[0], re.sub(r'\[.*', '', d)[:40]),
                 ('bs', it // 5 % 5, it // 25 % 4))
